@@ -87,8 +87,10 @@ structure Ref where
   target : Nat
   /-- `ReferenceDescription.NodeClass`, recorded when the reference was added -/
   storedClass : Nat
-  /-- the NodeClass attribute of the target node now (specification side only) -/
+  /-- the NodeClass attribute of the target node now -/
   targetClass : Nat
+  /-- the target is a node of this server's address space (`srv.Node(...) != nil`) -/
+  targetExists : Bool
   /-- NodeID, BrowseName, DisplayName or TypeDefinition is nil: Browse skips it -/
   nilField : Bool
   deriving Repr, DecidableEq
@@ -101,6 +103,11 @@ structure Desc where
   classMask : Nat
   deriving Repr, DecidableEq
 
+/-- the class the mask is applied to (after the repair of C33.nodeclass-mask-uses-stale-class):
+    the class the target node has now; the class recorded in the reference only when the
+    target is not in the address space -/
+def Ref.cls (r : Ref) : Nat := if r.targetExists then r.targetClass else r.storedClass
+
 def suitableDirection (bd : Nat) (isForward : Bool) : Bool :=
   bd = 2 || (bd = 0 && isForward) || (bd = 1 && !isForward)
 
@@ -108,7 +115,7 @@ def suitableDirection (bd : Nat) (isForward : Bool) : Bool :=
 def suitableRef (g : Graph) (fuel : Nat) (d : Desc) (r : Ref) : Bool :=
   if !suitableDirection d.dir r.isForward then false
   else if !suitableRefType g fuel d.refType r.refType d.includeSubtypes then false
-  else if d.classMask > 0 && d.classMask &&& r.storedClass = 0 then false
+  else if d.classMask > 0 && d.classMask &&& r.cls = 0 then false
   else true
 
 /-- the loop of `NodeNameSpace.Browse` over `n.refs`; a forward HasTypeDefinition
@@ -130,7 +137,7 @@ def browse (g : Graph) (fuel : Nat) (d : Desc) (refs : List Ref) : List Ref := b
 def SpecMatch (g : Graph) (d : Desc) (r : Ref) : Prop :=
   suitableDirection d.dir r.isForward = true ∧
   (d.refType = 0 ∨ r.refType = d.refType ∨ (d.includeSubtypes = true ∧ Sub g r.refType d.refType)) ∧
-  (d.classMask = 0 ∨ d.classMask &&& r.targetClass ≠ 0)
+  (d.classMask = 0 ∨ d.classMask &&& r.cls ≠ 0)
 
 /-- the reference type clause as a Boolean (the closure computed with fuel) -/
 def typeOkB (g : Graph) (fuel : Nat) (d : Desc) (t2 : Nat) : Bool :=
@@ -141,7 +148,7 @@ def classOkB (d : Desc) (cls : Nat) : Bool := d.classMask = 0 || d.classMask &&&
 
 /-- the specification as a Boolean -/
 def specMatchB (g : Graph) (fuel : Nat) (d : Desc) (r : Ref) : Bool :=
-  suitableDirection d.dir r.isForward && typeOkB g fuel d r.refType && classOkB d r.targetClass
+  suitableDirection d.dir r.isForward && typeOkB g fuel d r.refType && classOkB d r.cls
 
 theorem specMatchB_iff (g : Graph) (rank : Nat → Nat) (hr : RankOK g rank) (fuel : Nat) (d : Desc)
     (hf : rank d.refType < fuel) (r : Ref) : specMatchB g fuel d r = true ↔ SpecMatch g d r := by
@@ -159,10 +166,10 @@ theorem suitableRefType_eq (g : Graph) (fuel : Nat) (d : Desc) (t2 : Nat) :
     · have he' : ¬ t2 = d.refType := fun e => he e.symm
       cases hs : d.includeSubtypes <;> simp [h0, he, he']
 
-theorem suitableRef_eq (g : Graph) (fuel : Nat) (d : Desc) (r : Ref) (hc : r.storedClass = r.targetClass) :
+theorem suitableRef_eq (g : Graph) (fuel : Nat) (d : Desc) (r : Ref) :
     suitableRef g fuel d r = specMatchB g fuel d r := by
   unfold suitableRef specMatchB
-  rw [suitableRefType_eq g fuel d r.refType, hc]
+  rw [suitableRefType_eq g fuel d r.refType]
   cases hd : suitableDirection d.dir r.isForward
   · simp
   · cases ht : typeOkB g fuel d r.refType
@@ -171,11 +178,11 @@ theorem suitableRef_eq (g : Graph) (fuel : Nat) (d : Desc) (r : Ref) (hc : r.sto
       by_cases hm : d.classMask = 0
       · simp [hm]
       · have : d.classMask > 0 := by omega
-        by_cases hb : d.classMask &&& r.targetClass = 0 <;> simp [hm, hb, this]
+        by_cases hb : d.classMask &&& r.cls = 0 <;> simp [hm, hb, this]
 
 /-- the loop invariant: Browse returns a permutation of what it had plus the matching references -/
 theorem browseLoop_perm (g : Graph) (fuel : Nat) (d : Desc) :
-    ∀ (refs acc : List Ref), (∀ r ∈ refs, r.nilField = false ∧ r.storedClass = r.targetClass) →
+    ∀ (refs acc : List Ref), (∀ r ∈ refs, r.nilField = false) →
       (browseLoop g fuel d refs acc).Perm (acc ++ refs.filter (specMatchB g fuel d)) := by
   intro refs
   induction refs with
@@ -183,11 +190,11 @@ theorem browseLoop_perm (g : Graph) (fuel : Nat) (d : Desc) :
   | cons r rest ih =>
     intro acc hall
     have hr := hall r (by simp)
-    have hrest : ∀ x ∈ rest, x.nilField = false ∧ x.storedClass = x.targetClass :=
+    have hrest : ∀ x ∈ rest, x.nilField = false :=
       fun x hx => hall x (by simp [hx])
     unfold browseLoop
-    simp only [hr.1, Bool.false_eq_true, ↓reduceIte]
-    rw [suitableRef_eq g fuel d r hr.2]
+    simp only [hr, Bool.false_eq_true, ↓reduceIte]
+    rw [suitableRef_eq g fuel d r]
     by_cases hm : specMatchB g fuel d r = true
     · simp only [hm, ↓reduceIte, List.filter_cons_of_pos]
       split
